@@ -67,6 +67,10 @@ def s_case(gran):
     })
 
 
+def _show(ev):
+    return "a result" if ev[1] == "ok" else "%s: %s" % (F.exc_name(ev[2]), str(ev[2])[:160])
+
+
 def interpret(case, ctx):
     sim = U.Sim(tape=case["tape"], granularity=case["gran"])
     try:
@@ -168,18 +172,30 @@ def _run(case, ctx, sim):
         evs = out.events[before:]
         which["n"] = len(out.events)
         where = "first-page" if first else "later-page"
+        feat = [where]
+        if first and any(busy):
+            feat.append("busy-pool")
+            if case["spec"] and case["idempotent"]:
+                feat.append("speculative")
         if not evs:
-            ctx.fail(["C15.unbounded", where] + (["busy-pool"] if any(busy) and first else []),
-                     "%s request started at +0 with timeout %s has no outcome at +%.3f (virtual); "
-                     "servers saw pages %r, attempts %r; timer=%r" % (
-                         where, t, sim.world.now - start, seen_pages, pos, getattr(outs_fut(), "_timer", None)))
+            # diagnosis only: when (if ever) does it finish?
+            sim.advance(10.0)
+            more = out.events[before:]
+            which["n"] = len(out.events)
+            ctx.fail(["C15.unbounded"] + feat,
+                     "%s request with timeout %s has no outcome %.3f s (virtual) after it started; %s; "
+                     "servers saw pages %r, attempts per page %r" % (
+                         where, t, end - start,
+                         ("it finished after %.3f s with %s" % (more[0][0] - start, _show(more[0]))) if more
+                         else "still unfinished 10 s later", seen_pages, pos))
             return None
         T, kind, val = evs[0]
-        if T > end + 1e-9:
-            ctx.fail(["C15.unbounded", where, "late-outcome"] + (["busy-pool"] if any(busy) and first else []),
-                     "%s outcome delivered %.3f s after the request started, timeout %s" % (where, T - start, t))
+        if T > end + 1e-6:
+            ctx.fail(["C15.unbounded"] + feat,
+                     "%s request with timeout %s finished only %.3f s after it started (%s); servers saw pages %r, "
+                     "attempts per page %r" % (where, t, T - start, _show(evs[0]), seen_pages, pos))
             return None
-        if kind == "err" and isinstance(val, OperationTimedOut) and T - start < t - 1e-9 and not any(busy):
+        if kind == "err" and isinstance(val, OperationTimedOut) and T - start < t - 1e-6 and not any(busy):
             ctx.fail(["C15.early", where],
                      "OperationTimedOut delivered %.3f s after the %s request started although the timeout is %s: %s" % (
                          T - start, where, t, val))
